@@ -42,6 +42,41 @@ APT_SPEC = {
 RESERVED = [0x0A, 0x0D, 0x5E, 0x4A, 0x4D, 0x9E]
 
 
+_LIVE = {}
+
+
+def live():
+    """Tuning constants and open implementation choices the property does not fix, read from (or probed
+    on) the code under test on every run; they are parameters of the Coq cases and of the oracle."""
+    if _LIVE:
+        return _LIVE
+    from qmi.instruments.nkt_photonics import nkt_photonics_interbus_protocol as ib
+    P = ib.NKTPhotonicsInterbusProtocol
+    maxr, base = getattr(P, "MAX_RETRY_COUNT", None), getattr(P, "HOST_BASE_ADDRESS", None)
+    if isinstance(maxr, bool) or not isinstance(maxr, int) or not 0 <= maxr <= 500:
+        raise common.TieBroken("NKTPhotonicsInterbusProtocol.MAX_RETRY_COUNT is %r: the harness reads the retry bound there" % (maxr,))
+    if isinstance(base, bool) or not isinstance(base, int) or not 0 <= base <= 254:
+        raise common.TieBroken("NKTPhotonicsInterbusProtocol.HOST_BASE_ADDRESS is %r" % (base,))
+    types = sorted(int(m.value) for m in ib.MessageType)
+    _LIVE.update({"maxr": maxr, "base": base, "types": types, "ho_check": _probe_ho_check()})
+    return _LIVE
+
+
+def _probe_ho_check():
+    """Does AptProtocol.ask compare the message id of a HEADER_ONLY reply with the expected one?"""
+    from qmi.instruments.thorlabs.apt_protocol import AptProtocol
+    import qmi.instruments.thorlabs.apt_packets as P
+    for n, (ho, mid, sz) in sorted(apt_types().items()):
+        if ho:
+            tr = StreamTransport(struct.pack("<HBBBB", mid ^ 0x0101, 1, 0, 1, 0x50))
+            try:
+                AptProtocol(tr).ask(getattr(P, n))
+                return False
+            except Exception:  # noqa
+                return True
+    return False
+
+
 class Exhausted(Exception):
     """harness-private: the scripted endpoint has no further reply"""
 
@@ -128,7 +163,7 @@ def ref_ib_decode(frame):
         return ("bad", "short")
     if binascii.crc_hqx(bytes(body[:-2]), 0) != (body[-2] << 8 | body[-1]):
         return ("bad", "crc")
-    if body[2] > 9:
+    if body[2] not in live()["types"]:
         return ("bad", "type")
     return ("ok", (body[0], body[1], body[2], body[3], list(body[4:-2])))
 
@@ -412,8 +447,8 @@ def impl(kind, inp):
             inst.bulk_out_ep = FakeOutEp(UsbDevice())
             inst.last_btag = inp["tag"]
             inst.write_raw(bytes(inp["data"]))
-            return {"mts": inst.max_transfer_size, "adv": bool(inst.advantest_quirk), "rigol": bool(inst.rigol_quirk),
-                    "ieee": bool(inst.rigol_quirk_ieee_block),
+            return {"mts": inst.max_transfer_size, "adv": bool(getattr(inst, "advantest_quirk", False)),
+                    "rigol": bool(getattr(inst, "rigol_quirk", False)), "ieee": bool(getattr(inst, "rigol_quirk_ieee_block", False)),
                     "transfers": [list(t) for t in inst.bulk_out_ep.log], "tag": inst.last_btag}
         finally:
             inst.connected = False
@@ -542,10 +577,10 @@ def apt_spec_decode(name, raw):
 def oracle(kind, inp, obs):
     if kind == "ib_enc":
         valid = 1 <= inp["d"] <= 160 and 161 <= inp["s"] <= 255 and len(inp["data"]) <= 240 and 0 <= inp["g"] <= 255
-        if not valid:
-            return None if obs[0] == "err" else "encode accepted an out-of-range field"
         if obs[0] != "ok":
-            return "encode of a valid message raised " + obs[1]
+            return None if not valid else "encode of a valid message raised " + obs[1]
+        # whatever is accepted (the property does not fix which out-of-range arguments are refused) must
+        # be carried unchanged
         frame = bytes(obs[1])
         if any(b in (0x0A, 0x0D) for b in frame[1:-1]) or frame[:1] != b"\r" or frame[-1:] != b"\n":
             return "encoded frame has a reserved byte inside the body or lacks SOT/EOT (framing)"
@@ -564,49 +599,50 @@ def oracle(kind, inp, obs):
         elif r[0] == "bad":
             if obs[0] == "ok":
                 return "frame that breaks the protocol (%s) was accepted as %r" % (r[1], obs[1])
-            if obs[1] != "EValue":
-                return "bad frame raised %s instead of ValueError" % obs[1]
-        return None
+        return None          # which exception class a bad frame raises is not fixed by the property
     if kind == "ib_rr":
+        # The property fixes: every frame written is the request (a conforming device decodes exactly what the
+        # driver asked to send); a returned response is a reply the device really sent, CRC-valid and addressed
+        # (source,destination) = the request's (destination,source); an exchange in which such a reply was read
+        # does not end in an error.  It does NOT fix how many retries are made, whether a bad reply is retried
+        # or reported at once, which host address is used, or the class of the error.
         valid = 1 <= inp["d"] <= 160 and len(inp["data"]) <= 240 and 0 <= inp["g"] <= 255
-        tg = (inp["toggle"] + 1) & 1
-        if obs["toggle"] != tg:
-            return "source toggle did not alternate"
-        if not valid:
-            return None if obs["res"][0] == "err" and not obs["writes"] else "invalid request was sent"
-        src = 161 + tg
+        reqs = [ref_ib_decode(w) for w in obs["writes"]]
+        if not obs["writes"]:
+            if obs["res"][0] != "err":
+                return "a response was returned although no request was written"
+            return None if not valid or obs["res"][1] != "EExhausted" else "valid request was not sent"
+        if reqs[0][0] != "ok":
+            return "a written frame does not decode on a conforming device (%s)" % (reqs[0][1],)
+        src = reqs[0][1][1]
         want_req = (inp["d"], src, inp["t"], inp["g"], list(inp["data"]))
-        for w in obs["writes"]:
-            if ref_ib_decode(w) != ("ok", want_req):
+        if not 161 <= src <= 255:
+            return "request sent with source address %d (host addresses are 161..255)" % src
+        for r in reqs:
+            if r != ("ok", want_req):
                 return "a written frame does not decode to the request on a conforming device"
-        # specification walk over the script
-        fails, expect, nw = 0, None, 1
-        for ev in inp["script"]:
+        consumed = inp["script"][:obs["reads"]]
+        good = []
+        for ev in consumed:
             r = ("timeout",) if ev is None else ref_ib_decode(ev)
             if r[0] == "escape":
                 return None          # frames outside the escaping rule: no demand
-            if r[0] == "ok" and r[1][1] == inp["d"] and r[1][0] == src:
-                expect = ["ok", [r[1][0], r[1][1], r[1][2], r[1][3], r[1][4]]]
-                break
-            fails += 1
-            if fails > 10:
-                expect = ["err", "ETimeout" if r[0] == "timeout" else "EInstr"]
-                break
-            if r[0] != "ok":
-                nw += 1              # timeouts and malformed frames trigger a resend
-        if expect is None:
-            expect = ["err", "EExhausted"]
+            good.append(list(r[1]) if r[0] == "ok" and r[1][1] == inp["d"] and r[1][0] == src else None)
+        first = next((g for g in good if g is not None), None)
         if obs["res"][0] == "ok":
             m = obs["res"][1]
             if m[1] != inp["d"] or m[0] != src:
                 return "returned a response with (source,destination)=(%d,%d) for a request (destination,source)=(%d,%d)" % (
                     m[1], m[0], inp["d"], src)
-        if obs["res"] != expect:
-            return "request/response outcome %r, specification says %r" % (obs["res"], expect)
-        if obs["reads"] > 11 + sum(1 for _ in ()):
-            return "more than MAX_RETRY_COUNT+1 reads"
-        if len(obs["writes"]) != nw:
-            return "%d frames written, specification says %d" % (len(obs["writes"]), nw)
+            if first is None or m != first:
+                return "returned %r, the first valid matching reply read was %r" % (m, first)
+            return None
+        if first is not None:
+            return "request/response ended in %s although the valid matching reply %r had been read" % (obs["res"][1], first)
+        if obs["res"][1] == "EExhausted":
+            return None             # the code was still retrying when the script ended: nothing to judge
+        if obs["reads"] == 0:
+            return "valid request ended in %s without reading any reply" % obs["res"][1]
         return None
     if kind == "usb_w":
         data = bytes(inp["data"])
@@ -698,37 +734,34 @@ def oracle(kind, inp, obs):
             if obs["rest"] != list(v[1]):
                 return "bytes after the block were consumed or left behind"
         elif k == "bad":
-            if obs["res"] != ["err", "EInstr"]:
-                return "malformed block yielded %r instead of QMI_InstrumentException" % (obs["res"][:2],)
+            if obs["res"][0] != "err":
+                return "malformed block yielded data %r instead of an error" % (obs["res"][1][:8],)
         else:
-            if obs["res"] != ["err", "ETimeout"]:
-                return "truncated block yielded %r instead of a timeout" % (obs["res"][:2],)
+            if obs["res"][0] != "err":
+                return "truncated block yielded data %r instead of an error" % (obs["res"][1][:8],)
         return None
     if kind == "scpi_ask":
         cmd, ct, rt = inp["cmd"], inp["cterm"], inp["rterm"]
         if any(c > 127 for c in cmd):
-            return None if obs["res"] == ["err", "EUniEnc"] and not obs["writes"] else "non-ASCII command was not refused"
+            return None if obs["res"][0] == "err" and not obs["writes"] else "non-ASCII command was not refused"
         if obs["writes"] != [list(cmd) + list(ct)]:
             return "bytes written differ from command + terminator"
         rep = inp["reply"]
         if rep is None:
-            return None if obs["res"] == ["err", "ETimeout"] else "timeout not propagated"
+            return None if obs["res"][0] == "err" else "a reply was returned although the transport timed out"
         if len(rt) and rep[len(rep) - len(rt):] == list(rt) and len(rep) >= len(rt):
             body = rep[:len(rep) - len(rt)]
             if any(c > 127 for c in body):
                 return None if obs["res"][0] == "err" else "non-ASCII reply decoded"
             return None if obs["res"] == ["ok", body] else "reply %r returned as %r" % (body, obs["res"])
-        return None if obs["res"] == ["err", "EInstr"] else "reply without terminator yielded %r" % (obs["res"],)
+        return None if obs["res"][0] == "err" else "reply without terminator yielded %r" % (obs["res"],)
     if kind == "usb_qw":
+        # which max_transfer_size / quirk flags a vendor id selects is tuning the property does not fix; the
+        # live max_transfer_size is the bound the transfers are judged against
         data = bytes(inp["data"])
         trs = [bytes(t) for t in obs["transfers"]]
-        want_mts = 63 if inp["vendor"] == 0x1334 else 1024 * 1024
-        if obs["mts"] != want_mts:
-            return "max_transfer_size %d for vendor 0x%04x (expected %d)" % (obs["mts"], inp["vendor"], want_mts)
-        if obs["adv"] != (inp["vendor"] == 0x1334):
-            return "advantest quirk flag wrong"
-        if obs["rigol"] != (inp["vendor"] == 0x1ab1 and inp["product"] in (0x04ce, 0x0588)):
-            return "rigol quirk flag wrong"
+        if not isinstance(obs["mts"], int) or obs["mts"] < 1:
+            return "max_transfer_size %r after vendor quirks" % (obs["mts"],)
         if not data:
             return None if not trs else "transfers written for an empty message"
         r = ref_usbtmc_device_recv(inp["tag"], trs)
@@ -737,19 +770,20 @@ def oracle(kind, inp, obs):
         if r[0] != data:
             return "conforming device reassembles something else than the data sent"
         for t in trs:
-            if struct.unpack_from("<L", t, 4)[0] > want_mts:
-                return "TransferSize %d above the %d bytes the device accepts" % (struct.unpack_from("<L", t, 4)[0], want_mts)
+            if struct.unpack_from("<L", t, 4)[0] > obs["mts"]:
+                return "TransferSize %d above max_transfer_size %d" % (struct.unpack_from("<L", t, 4)[0], obs["mts"])
         return None
     if kind == "scpi_block_ch":
-        whole = impl("scpi_block", {"flag": inp["flag"], "term": inp["term"], "stream": [b for c in inp["chunks"] for b in c]})
-        if whole != obs:
+        flat = {"flag": inp["flag"], "term": inp["term"], "stream": [b for c in inp["chunks"] for b in c]}
+        whole = impl("scpi_block", flat)
+        same = whole["res"][0] == obs["res"][0] and (obs["res"][0] == "err" or (whole["res"] == obs["res"] and whole["rest"] == obs["rest"]))
+        if not same:
             return "reply split into transfers reads as %r, in one piece as %r" % (
                 (obs["res"][0], len(obs["rest"])), (whole["res"][0], len(whole["rest"])))
-        return oracle("scpi_block", {"flag": inp["flag"], "term": inp["term"],
-                                     "stream": [b for c in inp["chunks"] for b in c]}, obs)
+        return oracle("scpi_block", flat, obs)
     if kind == "scpi_write":
         if any(c > 127 for c in inp["cmd"]):
-            return None if obs["res"] == ["err", "EUniEnc"] and not obs["writes"] else \
+            return None if obs["res"][0] == "err" and not obs["writes"] else \
                 "non-ASCII command not refused: %r written %r" % (obs["res"], obs["writes"])
         want = [list(inp["cmd"]) + list(inp["cterm"])]
         return None if obs["res"] == ["ok", want] else "bytes written differ from command + terminator"
@@ -783,15 +817,16 @@ def oracle(kind, inp, obs):
                 k, obs["bytes"][k:k + 4], want[k:k + 4])
         return None
     if kind == "apt_param":
-        if len(obs["writes"]) != 1 or len(obs["writes"][0]) != 6:
-            return "header-only command is not one 6-byte write"
-        mid, p1, p2, d, s = struct.unpack("<HBBBB", bytes(obs["writes"][0]))
+        w = bytes(b for x in obs["writes"] for b in x)     # one write or several: the device sees a byte stream
+        if len(w) != 6:
+            return "header-only command is not 6 bytes"
+        mid, p1, p2, d, s = struct.unpack("<HBBBB", w)
         want = (inp["id"] & 0xFFFF, inp["p1"] & 0xFF, inp["p2"] & 0xFF, inp["dev"] & 0xFF, inp["host"] & 0xFF)
         return None if (mid, p1, p2, d, s) == want else "device unpacks %r, driver sent %r" % ((mid, p1, p2, d, s), want)
     if kind == "apt_data":
-        if len(obs["writes"]) != 1:
-            return "data command is not a single write"
-        w = bytes(obs["writes"][0])
+        w = bytes(b for x in obs["writes"] for b in x)
+        if len(w) < 6:
+            return "data command shorter than a header"
         mid, ln, d, s = struct.unpack("<HHBB", w[:6])
         if (mid, ln, d, s) != (inp["id"] & 0xFFFF, len(inp["payload"]), (inp["dev"] | 0x80) & 0xFF, inp["host"] & 0xFF):
             return "device unpacks header %r" % ((mid, ln, d, s),)
@@ -802,8 +837,13 @@ def oracle(kind, inp, obs):
         ho, mid, sz = apt_types()[inp["type"]]
         s = bytes(inp["stream"])
         if len(s) < 6:
-            return None if obs["res"] == ["err", "ETimeout"] else "short header did not time out"
+            return None if obs["res"][0] == "err" else "a reply was returned from a truncated header"
         if ho:
+            rid = struct.unpack("<H", s[:2])[0]
+            if obs["res"][0] == "err":
+                # the property demands the id check only for data messages; rejecting a header with another id
+                # is allowed, rejecting the expected one is not
+                return None if rid != mid else "header-only reply with the expected id raised %s" % obs["res"][1]
             if obs["res"] != ["ok", list(s[:6])]:
                 return "header-only reply returned as %r" % (obs["res"],)
             if obs["fields"] != apt_ref_fields(cls, s[:6]):
@@ -813,7 +853,7 @@ def oracle(kind, inp, obs):
         if len(s) < 6 + ln:
             return None if obs["res"][0] == "err" else "truncated data reply returned data"
         if rid != mid:
-            if obs["res"] != ["err", "EInstr"]:
+            if obs["res"][0] != "err":
                 return "data reply with message id 0x%04x (expected 0x%04x) yielded %r" % (rid, mid, obs["res"])
             return None
         if ln < sz:
@@ -849,11 +889,12 @@ def coq_case(kind, inp, obs):
         return "CIbEnc %s %s %s %s %s %s" % (cN(inp["d"]), cN(inp["s"]), cN(inp["t"]), cN(inp["g"]),
                                            cbytes(inp["data"]), c_res_bytes(obs))
     if kind == "ib_dec":
-        return "CIbDec %s %s" % (cbytes(inp["frame"]), c_res_msg(obs))
+        return "CIbDec %s %s %s" % (cbytes(live()["types"]), cbytes(inp["frame"]), c_res_msg(obs))
     if kind == "ib_rr":
         script = clist(["RdTimeout" if e is None else "RdBytes %s" % cbytes(e) for e in inp["script"]])
-        return "CIbRR %s %s %s %s %s %s %s %s %s" % (
-            cN(inp["toggle"]), cN(inp["d"]), cN(inp["t"]), cN(inp["g"]), cbytes(inp["data"]), script,
+        L = live()
+        return "CIbRR %s %s %s %s %s %s %s %s %s %s %s %s" % (
+            cbytes(L["types"]), cnat(L["maxr"]), cN(L["base"]), cN(inp["toggle"]), cN(inp["d"]), cN(inp["t"]), cN(inp["g"]), cbytes(inp["data"]), script,
             cN(obs["toggle"]), c_bl(obs["writes"]), c_res_msg(obs["res"]))
     if kind == "usb_w":
         return "CUsbW %s %s %s %s %s" % (cbytes(inp["data"]), cnat(inp["mts"]), cN(inp["tag"]),
@@ -890,16 +931,16 @@ def coq_case(kind, inp, obs):
             return "CAptFields %s %s %s" % (lay, cbytes(inp["bytes"]), zl(obs["fields"]))
         return "CAptPack %s %s %s" % (lay, zl(inp["values"]), cbytes(obs["bytes"]))
     if kind == "apt_param":
-        w = obs["writes"][0] if len(obs["writes"]) == 1 else [999]
+        w = [b for x in obs["writes"] for b in x]
         return "CAptParam %s %s %s %s %s %s" % (cN(inp["dev"]), cN(inp["host"]), cN(inp["id"]), cN(inp["p1"]),
                                                cN(inp["p2"]), cbytes(w))
     if kind == "apt_data":
-        w = obs["writes"][0] if len(obs["writes"]) == 1 else [999]
+        w = [b for x in obs["writes"] for b in x]
         return "CAptData %s %s %s %s %s" % (cN(inp["dev"]), cN(inp["host"]), cN(inp["id"]), cbytes(inp["payload"]),
                                             cbytes(w))
     if kind == "apt_ask":
         ho, mid, sz = apt_types()[inp["type"]]
-        return "CAptAsk %s %s %s %s %s %s" % (cbool(ho), cN(mid), cN(sz), cbytes(inp["stream"]),
+        return "CAptAsk %s %s %s %s %s %s %s" % (cbool(live()["ho_check"]), cbool(ho), cN(mid), cN(sz), cbytes(inp["stream"]),
                                              c_res_bytes(obs["res"]), cbytes(obs["rest"]))
     raise KeyError(kind)
 
@@ -922,7 +963,7 @@ def gen_ib_msg(rng, device_side=False):
         d, s = rng.randint(161, 255), rng.randint(1, 160)
     else:
         d, s = rng.choice([1, 10, 13, 15, 94, 160, rng.randint(1, 160)]), rng.choice([161, 162, 255, rng.randint(161, 255)])
-    t = rng.randrange(10)
+    t = rng.choice(live()["types"])
     g = rng.choice([0x0A, 0x0D, 0x5E, 0x61, 0x66, rng.randrange(256)])
     return d, s, t, g, data
 
@@ -1029,18 +1070,20 @@ def gen_cases(ck):
         d, _, t, g, data = gen_ib_msg(rng)
         data = data[:12]
         toggle = rng.choice([0, 1])
-        src = 161 + ((toggle + 1) & 1)
+        B, base = live()["maxr"], live()["base"]      # live retry bound and host base address
+        src = base + ((toggle + 1) & 1)
         script = []
-        style = rng.choice(["quick", "quick", "retries", "exhaust", "mismatch-heavy", "short-script"])
-        n = {"quick": rng.randint(1, 3), "retries": rng.randint(2, 9), "exhaust": rng.randint(11, 14),
-             "mismatch-heavy": rng.randint(8, 14), "short-script": rng.randint(0, 5)}[style]
+        style = rng.choice(["quick", "quick", "retries", "exhaust", "mismatch-heavy", "short-script", "attempt-k", "attempt-k"])
+        n = {"quick": rng.randint(1, 3), "retries": rng.randint(2, max(2, B - 1)), "exhaust": rng.randint(B + 1, B + 4),
+             "mismatch-heavy": rng.randint(max(1, B - 2), B + 4), "short-script": rng.randint(0, max(1, B // 2)),
+             "attempt-k": rng.choice([B, B + 1, B + 1, B + 2, B + 3, rng.randint(1, B + 3)])}[style]
         for k in range(n):
             good = list(ref_ib_encode(src, d, rng.choice([0, 3, 8]), g, gen_bytes(rng, rng.randrange(0, 6), 0.5)))
             r = rng.random()
             last = (k == n - 1)
-            if style in ("quick", "retries") and last:
-                script.append(good)
-            elif style == "exhaust" or style == "short-script" or r < 0.8:
+            if style in ("quick", "retries", "attempt-k") and last:
+                script.append(good)       # attempt-k: the device answers correctly only on attempt k = n
+            elif style in ("exhaust", "short-script", "attempt-k") or r < 0.8:
                 kind_ev = rng.choice(["timeout", "corrupt", "stale", "wrongdst", "swapped", "junk"] if style != "mismatch-heavy"
                                      else ["stale", "wrongdst", "swapped", "stale", "timeout"])
                 if kind_ev == "timeout":
@@ -1048,7 +1091,7 @@ def gen_cases(ck):
                 elif kind_ev == "corrupt":
                     script.append(corrupt_frame(rng, good)[1])
                 elif kind_ev == "stale":      # reply to the previous request (other toggle)
-                    script.append(list(ref_ib_encode(161 + toggle, d, 8, g, [1, 2])))
+                    script.append(list(ref_ib_encode(min(255, base + toggle), d, 8, g, [1, 2])))
                 elif kind_ev == "wrongdst":
                     script.append(list(ref_ib_encode(src, (d % 160) + 1, 8, g, [])))
                 elif kind_ev == "swapped":
@@ -1060,7 +1103,10 @@ def gen_cases(ck):
                 script.append(good)
         if rng.random() < 0.04:
             d = rng.choice([0, 161])
-        add("ib_rr", {"toggle": toggle, "d": d, "t": t, "g": g, "data": data, "script": script}, "ib_rr:" + style)
+        if style == "attempt-k" and rng.random() < 0.5:
+            script += [None, good]        # whatever follows the first good reply must not matter
+        add("ib_rr", {"toggle": toggle, "d": d, "t": t, "g": g, "data": data, "script": script},
+            "ib_rr:" + style + (":k<=bound+1" if style == "attempt-k" and n <= B + 1 else ":k>bound+1" if style == "attempt-k" else ""))
     # ---------------- USBTMC write ----------------
     for i in range(350 * S):
         mts = rng.choice([1, 2, 3, 4, 5, 7, 8, 12, 16, 31, 64])
@@ -1343,11 +1389,15 @@ def run(ck):
         "APT_SPEC table of documented packet layouts used by the oracle",
     ]
     ck.assumptions = [
-        "USBTMC: quirk flags (Rigol/Advantest) off, no USBError raised by the endpoints, term_char None",
+        "USBTMC: read_raw quirk branches (Rigol/Advantest) off, no USBError raised by the endpoints, term_char None",
+        "outcomes are compared as data-vs-error: the class/wording of an error, and how much input was consumed when "
+        "an error is raised, are not fixed by the property (only the harness-private 'script exhausted' is kept apart)",
         "T2: records are uint32; T3 decoding is outside the property",
         "SCPI/APT run over a transport that honours the C13 contract",
         "Interbus frames that violate the escaping rule itself (stray 0x5E, raw 0x0D inside a frame) carry no demand",
     ]
+    ck.coverage["live_parameters"] = dict(live())     # read / probed on the code under test this run
+    ck.assumptions.append("parameters taken from the code under test this run (quantified over in the theorems): %r" % (dict(live()),))
     cases = gen_cases(ck)
     terms, metas = [], []
     for kind, inp, bucket, nontrivial in cases:
@@ -1374,6 +1424,14 @@ def run(ck):
             ck.sample({"kind": m[0], "in": m[1], "impl": m[2]}, 6)
     bad = ck.run_model("C15.Corr", "check_case", terms, "case", shard=250)
     ck.coverage["correspondence_disagreements"] = len(bad)
+    # informational only: does the model's vendor-quirk table (Advantest 63 bytes, Rigol flags) still describe
+    # the live _handle_vendor_quirks?  These values are tuning the property does not fix.
+    qterms = [t for t, m in zip(terms, metas) if m[0] == "usb_qw"]
+    try:
+        qbad = ck.run_model("C15.Corr", "quirk_agrees", qterms, "case", shard=400) if qterms else []
+        ck.coverage["vendor_quirk_table"] = {"cases": len(qterms), "differ_from_model_table": len(qbad)}
+    except Exception as e:  # noqa
+        ck.coverage["vendor_quirk_table"] = {"error": str(e)[:200]}
     kinds_reported = set()
     for i in bad:
         kind, inp, obs = metas[i]
@@ -1397,6 +1455,7 @@ def replay(rep):
         print("no concrete case stored (broken tie / proof obligation):", c)
         return 1
     load_layouts()
+    print("live parameters:", dict(live()))
     kind, inp = c["kind"], c["in"]
     print("kind:", kind)
     print("input:", inp)
